@@ -15,15 +15,24 @@
     whether it sends tokens or not, leaves fewer bytes in the reader or moves down in a rank of 46 levels that depends
     on the state and on the first rune the reader holds; so the lexer reaches its final state within 46 * (bytes + 1)
     state calls and sends at most four tokens per call: its total work, and the number of tokens (hence of tree
-    nodes), are linear in the input.  What is NOT proved is that the parser's own loop
-    ends within its budget ([PBudget], reported as [OHang] too): that rests on the correspondence run only (every
-    prefix, deletion and insertion of generated files, random bytes, size-scaling families).  Labelled partial.
+    nodes), are linear in the input.  And the parser's loop ends: every iteration pulls a token (which uses up a
+    budget of the lexer that is linear in the input), or pops a frame, or is the last one; so for every input and for
+    every pair of budgets at least as large as two linear bounds -- 9 * (n + 1) state calls per token for the pump,
+    460 * (n + 1) + 2 iterations for the parser -- the model of the parse returns a tree, with or without an error
+    ([C06_parse_terminates]): no hang, no spinning, no budget used up, no panic, no blocked channel.  Since the budgets
+    exist only in the model (the Go code has none), this is the termination of the compiler.
+    What remains outside the theorems: the EXECUTABLE model runs with a smaller budget for the parser's loop
+    (4 * (n + 8) iterations; the proved one is a unary number too large for the size-scaling inputs), and the loops
+    inside the parse methods run on that budget too and return what they have if it is used up; that these smaller
+    budgets are never used up is established by the correspondence run (every prefix, deletion and insertion of
+    generated files, random bytes, size-scaling families: the model would report a hang where the implementation
+    returns).  Wall-clock time is measured, not modelled.  Labelled partial for these two reasons only.
     OBLIGATIONS: C06_state_call_emits_few C06_lexer_never_blocks C06_compile_never_deadlocks C06_cursor_stays_in_range
                  C06_lexer_never_panics C06_compile_never_panics C06_state_call_makes_progress C06_lexer_never_spins
                  C06_only_parser_budget_left C06_loop_bounds_never_reached C06_every_state_call_moves_down
-                 C06_lexer_total_work_linear C06_nonvacuous *)
+                 C06_lexer_total_work_linear C06_parse_terminates C06_nonvacuous *)
 From GV Require Import Compiler.Compile Proofs.LexProofs Proofs.NoDeadlockProofs Proofs.LexSafeProofs Proofs.NoPanicProofs
-  Proofs.LexProgressProofs Proofs.LexPumpProofs Proofs.NoSpinProofs Proofs.LexFuelProofs Proofs.LexTotalProofs Proofs.LexWorkProofs.
+  Proofs.LexProgressProofs Proofs.LexPumpProofs Proofs.NoSpinProofs Proofs.LexFuelProofs Proofs.LexTotalProofs Proofs.LexWorkProofs Proofs.LexEndProofs Proofs.ParserTermProofs.
 From Coq Require Import Lia.
 
 (** every state function, on every cursor, sends at most four tokens (the channel holds [c_token_queue_cap] tokens,
@@ -100,6 +109,21 @@ Theorem C06_lexer_total_work_linear : forall input,
 Proof. exact lexer_total_work_linear. Qed.
 Print Assumptions C06_lexer_total_work_linear.
 
+(** THE COMPILER TERMINATES.  [parse_bytes_with lf pf] is the model of the parse with the budget [lf] of the pump and
+    [pf] of the parser's loop as parameters ([parse_bytes] is its instance with the budgets of the executable model);
+    for every input and all budgets at least as large as two linear bounds it returns a tree, with or without an
+    error -- never one of the abnormal outcomes *)
+Theorem C06_parse_terminates : forall input lf pf,
+  (9 * (List.length input + 1) <= lf)%nat -> (460 * (List.length input + 1) + 2 <= pf)%nat ->
+  (exists t e, parse_bytes_with lf pf input = Parsed t e) /\
+  parse_bytes input = parse_bytes_with (lex_fuel input) (parse_fuel input) input.
+Proof.
+  intros input lf pf H1 H2. split; [|reflexivity]. apply parse_terminates.
+  - unfold rk_levels. exact H1.
+  - unfold parse_budget, levels2. lia.
+Qed.
+Print Assumptions C06_parse_terminates.
+
 (** the loops inside the state functions run on the reader's bytes as fuel and return what they have when it is used
     up; that never happens: with any amount of additional fuel they return the same *)
 Theorem C06_loop_bounds_never_reached : forall extra l,
@@ -131,3 +155,9 @@ Example C06_nonvacuous :
   (match next_token 18 (new_lexer (lit "x")) with PTok _ _ => true | _ => false end) = true.
 Proof. split; [vm_compute; reflexivity|]. split; [vm_compute; reflexivity|]. split; [reflexivity|]. repeat split; vm_compute; reflexivity. Qed.
 Print Assumptions C06_nonvacuous.
+
+(* under the budgets of the termination theorem the parse of a small template is the one the executable model gives *)
+Example C06_budgets_nonvacuous :
+  parse_bytes_with (9 * 21) (460 * 21 + 2) (lit "@goht T() {" ++ [10; 9] ++ lit "%p x" ++ [10] ++ lit "}" ++ [10]) =
+  parse_bytes (lit "@goht T() {" ++ [10; 9] ++ lit "%p x" ++ [10] ++ lit "}" ++ [10]).
+Proof. vm_compute. reflexivity. Qed.
